@@ -138,8 +138,15 @@ func runTwoWFOnce(a []string, bound time.Duration) (string, bool) {
 	}
 	defer func() {
 		cancel()
+		// Stop waits (spinning) for every process to end; it is given 5 s of real time per workflow, then left behind
 		for _, w := range ws {
-			w.Stop()
+			w := w
+			done := make(chan struct{})
+			go func() { w.Stop(); close(done) }()
+			select {
+			case <-done:
+			case <-time.After(5 * time.Second):
+			}
 		}
 	}()
 	runIDs := make([][]string, len(ws))
